@@ -561,10 +561,20 @@ func tcpCase(r *Rng, e *netEnv, tg *tcpTargets, out *Out) {
 				rdl = 1600 * time.Millisecond
 			}
 			conn.SetReadDeadline(time.Now().Add(rdl))
+			extended := false
 			for {
 				n, err := conn.Read(buf)
 				o.fromServer = append(o.fromServer, buf[:n]...)
 				if err != nil {
+					var te net.Error
+					if !extended && (s.kind == "probe-short" || s.kind == "probe-garbage" || s.kind == "probe-unknown-key" || s.kind == "probe-bitflip") && errors.As(err, &te) && te.Timeout() {
+						// input that can never authenticate must be closed at the handshake deadline; on a busy machine that close
+						// can come later than this client's patience.  Late is not the client's doing: keep waiting (the
+						// classification below tolerates a late close and an alarm is raised only if none comes at all)
+						extended = true
+						conn.SetReadDeadline(time.Now().Add(3 * time.Second))
+						continue
+					}
 					o.closeAt = time.Since(o.start)
 					var ne net.Error
 					switch {
@@ -637,6 +647,11 @@ func tcpCase(r *Rng, e *netEnv, tg *tcpTargets, out *Out) {
 				// both ends of the interval taken on the server side: a client goroutine that was scheduled late after
 				// its connect (busy machine) must not make a close at the deadline look early
 				o.closeAt = rec.closedAt.Sub(rec.openedAt)
+			}
+			if o.closeKind == "fin-after-client-fin" && !halfClosed && o.clientFin > 0 && rec.closedAt.Before(o.start.Add(o.clientFin)) {
+				// the handler had finished BEFORE this client gave up waiting and sent its FIN: the server closed on its own
+				// (late, on a busy machine), not in answer to the client.  Classified by its own close time below.
+				o.closeKind = "fin"
 			}
 		}
 		rec.mu.Unlock()
